@@ -318,6 +318,12 @@ def Spec.analysis (sp : Spec) : Analysis AccState V Val IErr where
     | .ok t => t
     | .error e => ⟨[], some e⟩
 
+/-- the analysis described by `sp`, with the call of `compute()` separated from its iteration: an accumulator
+among the post-elements is filled when `compute()` is called -/
+def Spec.analysisE (sp : Spec) : AnalysisE AccState V Val IErr where
+  fill := fun s v => preFill names sp.pre s v
+  start := fun s => postRun names sp.post (accCompute names sp.acc s)
+
 /-- `MapBins(seq)` with `seq = Sequence(*steps)`: `copy.deepcopy(seq).run([cell])` — a fresh copy, so the
 stateful elements start from their initial state for every cell -/
 def seqStart (steps : List Step) (cell : Val) : Except IErr (Trace Val IErr) :=
@@ -368,14 +374,46 @@ def excNameWith {ε : Type} (f : ε → String) : Exc ε → String
   | .unmodelled => "unmodelled"
   | .inner e => f e
 
-/-- the analysis of the outer cells: the inner `SplitIntoBins`, its histograms iterated bin by bin -/
-def Inner.analysis (inn : Inner) : Analysis (SIB Int AccState) V (FVal Int V) (Exc IErr) :=
-  SIB.analysis names (inn.spec.analysis names) (argVar inn.getter inn.vc) guessLo
-    (iterateAfter names inn.sel.onData (cellToString names fmtInt) (encEdges V.int))
+/-- the analysis of the outer cells: the inner `SplitIntoBins`, its histograms iterated bin by bin.
+(`FillComputeSeq(innerSIB, IterateBins()).compute()` only chains generators: the inner `compute()` runs at
+the first `next`, so a creation-time exception of an inner cell's analysis is part of the trace.) -/
+def Inner.analysis (inn : Inner) : Analysis (SIB Int AccState) V (FVal Int V) (Exc IErr) where
+  fill := fun s v => SIB.fill names (inn.spec.analysis names) (argVar inn.getter inn.vc) guessLo s v
+  compute := fun s =>
+    iterateAfter names inn.sel.onData (cellToString names fmtInt) (encEdges V.int)
+      (SIB.computeE names (inn.spec.analysisE names) (argVar inn.getter inn.vc) s)
 
 /-- the inner `SplitIntoBins` as constructed -/
 def Inner.init (inn : Inner) : Except (Exc IErr) (SIB Int AccState) :=
   SIB.new names (some (accInit names)) true inn.edges
+
+/-! ## cells that hold histograms (the second stage after a two-level split whose inner `IterateBins` did not
+select): data are values or histograms -/
+
+inductive DataH where
+  | v (x : V)
+  | h (h : Hist Int (Value V))
+
+def valToH : Val → Value DataH
+  | .bare d => .bare (.v d)
+  | .pair d c => .pair (.v d) c
+
+def fvalToH : FVal Int V → Value DataH
+  | .plain v => valToH v
+  | .hist h none => .bare (.h h)
+  | .hist h (some c) => .pair (.h h) c
+
+/-- `select_bins` on data that may be a histogram; `dflt` is the default `Selector(lena.structures.histogram)` -/
+inductive SelH where
+  | all | isInt | none | dflt
+
+def SelH.onData : SelH → DataH → Bool
+  | .all, _ => true
+  | .isInt, .v (.int _) => true
+  | .isInt, _ => false
+  | .none, _ => false
+  | .dflt, .h _ => true
+  | .dflt, .v _ => false
 
 end
 end Lena.C11.Conc
